@@ -101,6 +101,11 @@ func (l *c6Local) TakesFunc(ctx context.Context, cb func(ctx context.Context, x 
 	return cb(ctx, 1)
 }
 
+// exported methods WITHOUT a context parameter (fmt.Stringer, io.Closer and friends end up on exposed objects
+// all the time): never callable (the argument count can not match), and asking for them must not hurt
+func (l *c6Local) String() string { l.hit("String"); return "c6Local" }
+func (l *c6Local) Close() error   { l.hit("Close"); return nil }
+
 var _ = (*c6Local).lower
 
 type c6Remote struct {
@@ -116,6 +121,7 @@ var c6Names = []string{
 	"closuresLock.Lock", "closures", "Lock", "Unlock", "CallClosure.X", "Leaf.svc.hits", strings.Repeat("Leaf.", 200) + "Foo", strings.Repeat("A", 5000),
 	"c6inner.Deep.Foo", "c6inner", "c6inner.Deep", "Deep.Foo", "Deep", "Deep.foo",
 	"Ping\x00", "Píng", "Leaf․Foo", "Leaf/Foo", "Leaf..Foo",
+	"String", "Close", "Leaf.String",
 }
 
 var c6Args = []string{
@@ -599,9 +605,13 @@ func runC06(rep *Report, tier string, seed int64) {
 	if tier == "thorough" {
 		batches, per = 60, 400
 	}
-	for b := 0; b < batches; b++ {
-		api := apis()[b%2]
+	// b = -1, -2: the systematic sweep (every name of the zoo × 0/1/2 arguments, well-formed frames), one per link API
+	for b := -2; b < batches; b++ {
+		api := apis()[(b+2)%2]
 		cmd := exec.Command(os.Args[0], "-sub", "c06", fmt.Sprint(seed*1000+int64(b)), fmt.Sprint(per), api)
+		if b < 0 {
+			cmd = exec.Command(os.Args[0], "-sub", "c06", fmt.Sprint(seed), "0", api, "systematic")
+		}
 		outB, err := cmd.Output()
 		lines := strings.Split(string(outB), "\n")
 		last := ""
